@@ -93,6 +93,14 @@ def check(ctx, rep):
         rep.ob('numbers.sign-applies-to-every-form', 'parse_number: the sign is applied to `%s`' % short(a.value, 50), ok,
                'a minus sign before this operand form is ignored (e.g. DRAW "U-=A;" moves up instead of down)', ctx.where(a))
     rep.floor('numbers.sign-applies-to-every-form', len(srcs), 3, 'operand forms')
+    # after `=` a byte above the largest VARPTR$ type code starts a variable *name*; the type codes are the value
+    # sizes 2, 3, 4, 8, so the boundary is the size of a double
+    flp = ctx.flow(pn)
+    thr = [n for n in own_nodes(pn) if isinstance(n, ast.If) and isinstance(n.test, ast.Compare) and norm(n.test.left) == 'ord(c)']
+    dbl = ctx.fold(ctx.idx.locate('pcbasic/basic/values/numbers.py:Double.size'))
+    okt = len(thr) == 1 and isinstance(thr[0].test.ops[0], ast.Gt) and ctx.fold(thr[0].test.comparators[0]) == dbl == 8
+    rep.ob('numbers.varptr-type-byte-boundary', 'parse_number: a byte is a name character iff it is greater than the largest VARPTR$ type code (%s)' % dbl, okt,
+           norm(thr[0].test) if thr else 'no test', ctx.where(pn))
     # the DRAW state (pen, scale, angle) that __init__ declares is put back by reset() (CLS, SCREEN, RUN, CLEAR):
     # after a reset DRAW starts from the centre, at scale 4 and angle 0
     gi = ctx.fn(G + ':Graphics.__init__')
@@ -193,6 +201,8 @@ def variants(ctx):
 
     return [
         Va('reset-keeps-draw-pen', 'break', G, in_fn('Graphics.reset', lambda fn: mu.remove_stmt(fn, mu.text_is('self._draw_current = None'))), expect='reset.draw-state'),
+        Va('double-varptr-taken-for-a-name', 'break', 'pcbasic/basic/mlparser.py',
+           lambda tree: mu.replace_expr(mu.find_def(tree, 'MLParser.parse_number'), mu.text_is('ord(c) > 8'), 'ord(c) >= 8'), expect='numbers.varptr'),
         Va('minus-ignored-before-variable', 'break', 'pcbasic/basic/mlparser.py', lambda tree: _sign_literal_only(mu.find_def(tree, 'MLParser.parse_number')), expect='numbers.sign'),
         Va('E-goes-down', 'break', G, in_fn('Graphics._draw', lambda fn: mu.replace_expr(fn, mu.text_is("c in (b'U', b'E', b'H')"), "c in (b'U', b'H')")), expect='moves.direction'),
         Va('L-and-R-swapped', 'break', G, in_fn('Graphics._draw', _swap_lr), expect='moves.direction'),
